@@ -1288,6 +1288,121 @@ Proof.
 Qed.
 
 
+(* ================================================================== K: add_edge_without_blockers = "add the edge and every simplex whose faces without a
+   and without b are present" (spec_fill of C17_Model.v) *)
+Lemma all_pairs_filter (f : Z -> Z -> bool) (p : Z -> bool) t : all_pairs f t = true -> all_pairs f (filter p t) = true.
+Proof.
+  induction t as [|x r IH]; intros H; auto. simpl in H. apply andb_true_iff in H. destruct H as [H1 H2].
+  simpl. destruct (p x); [|auto]. simpl. rewrite (IH H2), andb_true_r.
+  rewrite forallb_forall in *. intros w Hw. apply filter_In in Hw. apply H1. tauto.
+Qed.
+
+Lemma all_pairs_intro (f : Z -> Z -> bool) t : NoDup t ->
+  (forall u w, In u t -> In w t -> u <> w -> f u w = true) -> all_pairs f t = true.
+Proof.
+  induction t as [|x r IH]; intros Hn H; auto. inversion Hn as [|x' r' Hx Hr]; subst.
+  simpl. apply andb_true_iff. split.
+  - apply forallb_forall. intros w Hw. apply H; [left; auto | right; auto |]. intros ->. auto.
+  - apply IH; auto. intros u w Hu Hw. apply H; right; auto.
+Qed.
+
+Lemma two_members_length (t : list Z) u w : In u t -> In w t -> u <> w -> (2 <= length t)%nat.
+Proof.
+  destruct t as [|x [|y r]]; simpl; intros Hu Hw Huw;
+    [destruct Hu | destruct Hu as [<-|[]]; destruct Hw as [<-|[]]; congruence | lia].
+Qed.
+
+Theorem add_edge_without_blockers_spec (c : cplx) (a b : Z) (t : simplex) :
+  a <> b -> has_edge c a b = false -> wf_blk c -> (forall beta, In beta (blk c) -> ~ (In a beta /\ In b beta)) -> NoDup t ->
+  contains (add_edge_without_blockers c a b) t
+  = contains c t || (smem a t && smem b t && contains c (sremove a t) && contains c (sremove b t)).
+Proof.
+  intros Hab Hne Hwb Hnab Hnd.
+  set (c1 := add_edge_without_blockers c a b).
+  assert (Hc1 : slots c1 = slots c /\ act c1 = act c /\ blk c1 = blk c).
+  { unfold c1, add_edge_without_blockers. rewrite Hne. simpl. auto. }
+  destruct Hc1 as [S1 [A1 B1]].
+  assert (Hcv : forall v, contains_vertex c1 v = contains_vertex c v) by (intros v; unfold contains_vertex; rewrite S1, A1; auto).
+  assert (Hhe : forall u w, has_edge c1 u w = has_edge c u w || same_edge a b u w) by (intros; apply has_edge_add; auto).
+  assert (Hbl : forall s, blocks c1 s = blocks c s) by (intros s; unfold blocks, blockers_at; rewrite B1; auto).
+  destruct t as [|x [|y r]].
+  - reflexivity.
+  - simpl contains. rewrite Hcv. unfold smem. simpl. rewrite !orb_false_r.
+    destruct (Z.eqb_spec a x); destruct (Z.eqb_spec b x); simpl; try rewrite orb_false_r; auto. congruence.
+  - remember (x :: y :: r) as T eqn:ET.
+    assert (Hct : forall c0, contains c0 T = contains_edges c0 T && negb (blocks c0 T)) by (intros; rewrite ET; apply contains_two).
+    destruct (smem a T && smem b T) eqn:Eab.
+    + apply andb_true_iff in Eab. destruct Eab as [Ea Eb]. apply smem_In in Ea, Eb.
+      assert (Hc0 : contains c T = false).
+      { rewrite Hct. unfold contains_edges.
+        rewrite (all_pairs_missing (has_edge c) T a b (has_edge_sym c) Ea Eb Hab Hne). rewrite andb_false_r. auto. }
+      rewrite Hc0. simpl.
+      assert (HTa : forall v, In v (sremove a T) <-> In v T /\ v <> a) by (intros; apply sremove_In).
+      assert (HTb : forall v, In v (sremove b T) <-> In v T /\ v <> b) by (intros; apply sremove_In).
+      apply eq_true_iff_eq. rewrite (Hct c1). rewrite !andb_true_iff, !contains_is_gamma, negb_true_iff.
+      unfold contains_edges. rewrite andb_true_iff, forallb_forall. split.
+      * intros [[Hv Hp] Hb].
+        assert (Hside : forall z z', In z' T -> z' <> z -> (z = a \/ z = b) ->
+                  sremove z T <> [] /\ (forall v, In v (sremove z T) -> contains_vertex c v = true) /\
+                  ((2 <= length (sremove z T))%nat -> all_pairs (has_edge c) (sremove z T) = true /\
+                     forall b0, In b0 (blk c) -> b0 <> [] -> ssub b0 (sremove z T) = false)).
+        { intros z z' Hz' Hzz Hzab. split; [|split].
+          - intros E. assert (In z' (sremove z T)) by (apply sremove_In; auto). rewrite E in H. destruct H.
+          - intros v Hv'. apply sremove_In in Hv'. rewrite <- Hcv. apply Hv. tauto.
+          - intros _. split.
+            + rewrite <- (all_pairs_ext_in (has_edge c1) (has_edge c) (sremove z T)).
+              * apply all_pairs_filter. auto.
+              * intros u w Hu Hw. rewrite Hhe. apply sremove_In in Hu, Hw.
+                destruct (same_edge a b u w) eqn:Ese; [|apply orb_false_r]. exfalso.
+                apply same_edge_iff in Ese. destruct Hzab as [-> | ->]; intuition congruence.
+            + intros b0 Hb0 Hne0. destruct (ssub b0 (sremove z T)) eqn:Es; auto. exfalso.
+              assert (blocks c T = true); [|rewrite <- Hbl in H; congruence].
+              apply blocks_spec. exists b0. repeat split; auto. apply ssub_incl. intros v Hv'.
+              apply ssub_incl in Es. specialize (Es v Hv'). apply sremove_In in Es. tauto. }
+        split; [exact (Hside a b Eb (not_eq_sym Hab) (or_introl eq_refl)) | exact (Hside b a Ea Hab (or_intror eq_refl))].
+      * intros [[Na [Va Ga]] [Nb [Vb Gb]]]. split; [split|].
+        -- intros v Hv. rewrite Hcv. destruct (Z.eq_dec v a) as [->|N].
+           ++ apply Vb. apply sremove_In. auto.
+           ++ apply Va. apply sremove_In. auto.
+        -- apply all_pairs_intro; auto. intros u w Hu Hw Huw. rewrite Hhe.
+           destruct (same_edge a b u w) eqn:Ese; [apply orb_true_r|]. rewrite orb_false_r.
+           assert (Hcase : (u <> a /\ w <> a) \/ (u <> b /\ w <> b)).
+           { assert (Hns : ~ ((u = a /\ w = b) \/ (u = b /\ w = a))) by (intros H; apply same_edge_iff in H; congruence).
+             destruct (Z.eq_dec u a); destruct (Z.eq_dec w a); destruct (Z.eq_dec u b); destruct (Z.eq_dec w b);
+               try (left; split; assumption); try (right; split; assumption); exfalso; try congruence; apply Hns; auto. }
+           destruct Hcase as [[H1 H2]|[H1 H2]].
+           ++ assert (Hu' : In u (sremove a T)) by (apply sremove_In; auto).
+              assert (Hw' : In w (sremove a T)) by (apply sremove_In; auto).
+              destruct (Ga (two_members_length _ u w Hu' Hw' Huw)) as [Gp _].
+              apply (all_pairs_In (has_edge c) _ (has_edge_sym c) Gp u w Hu' Hw' Huw).
+           ++ assert (Hu' : In u (sremove b T)) by (apply sremove_In; auto).
+              assert (Hw' : In w (sremove b T)) by (apply sremove_In; auto).
+              destruct (Gb (two_members_length _ u w Hu' Hw' Huw)) as [Gp _].
+              apply (all_pairs_In (has_edge c) _ (has_edge_sym c) Gp u w Hu' Hw' Huw).
+        -- rewrite Hbl. apply not_true_is_false. intros Hb. apply blocks_spec in Hb. destruct Hb as [b0 [Hb0 [Hne0 Hs]]].
+           destruct (Hwb b0 Hb0) as [Hnd0 Hlen0].
+           assert (Hside : forall z, ~ In z b0 -> (2 <= length (sremove z T))%nat ->
+                     (forall b1, In b1 (blk c) -> b1 <> [] -> ssub b1 (sremove z T) = false) -> False).
+           { intros z Hz Hl Hg. assert (ssub b0 (sremove z T) = true); [|rewrite (Hg b0 Hb0 Hne0) in H; discriminate].
+             apply ssub_incl. intros v Hv. apply sremove_In. split; [apply (proj1 (ssub_incl _ _) Hs); auto | intros ->; auto]. }
+           assert (Hlen : forall z, ~ In z b0 -> (2 <= length (sremove z T))%nat).
+           { intros z Hz. assert (ssub b0 (sremove z T) = true).
+             { apply ssub_incl. intros v Hv. apply sremove_In. split; [apply (proj1 (ssub_incl _ _) Hs); auto | intros ->; auto]. }
+             pose proof (ssub_length _ _ Hnd0 H). lia. }
+           destruct (in_dec Z.eq_dec a b0) as [Ia|Ia].
+           ++ destruct (in_dec Z.eq_dec b b0) as [Ib|Ib]; [exact (Hnab b0 Hb0 (conj Ia Ib))|].
+              apply (Hside b Ib (Hlen b Ib)). apply Gb. apply Hlen; auto.
+           ++ apply (Hside a Ia (Hlen a Ia)). apply Ga. apply Hlen; auto.
+    + assert (Hnot : ~ (In a T /\ In b T)).
+      { intros [H1 H2]. apply smem_In in H1, H2. rewrite H1, H2 in Eab. discriminate. }
+      simpl. rewrite orb_false_r. rewrite !Hct. f_equal; [|rewrite Hbl; auto].
+      unfold contains_edges. f_equal; [apply forallb_ext'; auto|].
+      apply all_pairs_ext_in. intros u w Hu Hw. rewrite Hhe.
+      destruct (same_edge a b u w) eqn:Ese; [|apply orb_false_r]. exfalso. apply Hnot.
+      apply same_edge_iff in Ese. destruct Ese as [[-> ->]|[-> ->]]; auto.
+Qed.
+
+
 (* ================================================================== witnesses *)
 (* boundary of the tetrahedron 0123 built through the transcribed operations *)
 Definition complete4 : cplx :=
@@ -1340,6 +1455,15 @@ Proof.
 Qed.
 
 (* non-vacuity of the hypotheses used above *)
+Example add_edge_without_blockers_instance :
+  let c := remove_star_edge 3 complete4 0 1 in
+  has_edge c 0 1 = false /\ wf_blk c /\ (forall beta, In beta (blk c) -> ~ (In 0 beta /\ In 1 beta)) /\
+  contains c [0; 1; 2; 3] = false /\ contains (add_edge_without_blockers c 0 1) [0; 1; 2; 3] = true.
+Proof.
+  split; [vm_compute; auto|]. split; [|split; [|split; vm_compute; auto]].
+  - intros b Hb. vm_compute in Hb. destruct Hb.
+  - intros b Hb. vm_compute in Hb. destruct Hb.
+Qed.
 Example add_edge_hypotheses_instance :
   let c := add_vertex hollow_tetrahedron in
   has_edge c 0 4 = false /\ wf_blk c /\ wf_edg c /\ inc [0; 4] /\ contains (add_edge c 0 4) [0; 4] = true /\
